@@ -5,7 +5,7 @@ import random
 
 from harness import common as C
 
-TEXELS = {"quick": [(2, 1), (3, 2), (5, 1)], "thorough": [(1, 1), (3, 2), (2, 1), (5, 2), (3, 1), (5, 1)]}
+TEXELS = {"quick": [(2, 1), (3, 2), (5, 3), (5, 1)], "thorough": [(1, 1), (3, 2), (2, 1), (5, 2), (5, 3), (7, 4), (3, 1), (5, 1)]}
 
 
 def mkrow(r):
